@@ -1083,6 +1083,10 @@ def run(chk, model_ok):
     ncorr += stats.pop("_ncorr", 0)
     lap("fields")
 
+    # ======================================================= 5. formula terms found only through the bounds variable
+    n_eval += run_fterms(chk, rng, quick, scratch, bump, distinct)
+    lap("fterms")
+
     chk.coverage.update({
         "evaluations": n_eval,
         "distinct_nontrivial": len(distinct),
@@ -1113,6 +1117,74 @@ def run(chk, model_ok):
         "group and variable names are free of regular-expression metacharacters (the reader strips the group prefix of a flattened name with re.sub)",
         "the order in which netCDF4-python iterates dimensions, variables and sub-groups is taken from the library (the model is given the tree in that order)",
     ]
+
+
+# seed C11-s1: the smallest placement (coordinate, bounds and terms in /g1, data in /g1/g2)
+CORPUS_FTERMS = [
+    {"chain": ["g1", "g2", "g3"], "r0": 1, "k": 2, "seed": 1, "bounds_deeper": False, "spread": False},
+    {"chain": ["forecast", "model", "run"], "r0": 2, "k": 2, "seed": 2, "bounds_deeper": False, "spread": True},
+    {"chain": ["a1", "b1", "c1", "d1"], "r0": 3, "k": 4, "seed": 3, "bounds_deeper": True, "spread": True},
+]
+
+
+def run_fterms(chk, rng, quick, scratch, bump, distinct):
+    """A bounded parametric vertical coordinate whose terms' bounds are reachable only through the
+    formula_terms attribute of the coordinate's bounds variable (CF 7.1; a file of another producer),
+    everything in non-root groups: grouped read-back == flat read-back == original."""
+    only = os.environ.get("C11_ONLY", "")
+    cases = [dict(c) for c in CORPUS_FTERMS] if only in ("", "fterms") else []
+    for _ in range(0 if only not in ("", "fterms") else 36 if quick else 400):
+        chain = list(rng.choice(CHAINS))
+        if rng.random() < 0.3:
+            chain.append(chain[-1] + "x")
+        r0 = rng.randint(1, len(chain))
+        cases.append({"chain": chain, "r0": r0, "k": rng.randint(r0, len(chain)), "seed": rng.randrange(10 ** 6),
+                      "bounds_deeper": rng.random() < 0.3, "spread": rng.random() < 0.6})
+    rows, crashed = run_family("fterms", cases, scratch, nworkers=12)
+    for rc, err in crashed:
+        chk.fail("correspondence", "worker-crash", f"C11 fterms worker died rc={rc}: {err}", {"correspondence": DRV + " fterms"})
+    for c, r in zip(cases, rows):
+        if r is None:
+            continue
+        inp = {k: v for k, v in c.items() if k != "i"}
+        if "harness_err" in r:
+            chk.fail("correspondence", "harness-error", r["harness_err"], {"correspondence": DRV + " fterms", "input": inp, "log": r.get("tb")})
+            continue
+        bump(f"fterms:coordinate-depth-{c['r0']}")
+        bump("fterms:data-" + ("deeper" if max(c["k"], c["r0"]) > c["r0"] else "beside"))
+        distinct.add(lib.canon(["fterms", inp]))
+        for tag in ("G", "F"):
+            R = r.get(tag, {})
+            obs = {k: v for k, v in R.items() if k != "layout"}
+            if "write_exc" in R:
+                chk.fail("property", f"formula-terms:{tag}-write-failed", f"{R['write_exc']}: {R.get('write_msg')}", {"input": inp, "observed": obs})
+                continue
+            if not R.get("removed"):
+                chk.fail("correspondence", "formula-terms:nothing-stripped",
+                         "no formula-terms variable had a bounds attribute of its own to remove (the harness no longer exercises the CF 7.1 route)",
+                         {"correspondence": DRV + " fterms", "input": inp, "observed": obs})
+            if "read_exc" in R:
+                chk.fail("property", f"formula-terms:{'grouped' if tag == 'G' else 'flat'}-file-not-read",
+                         f"{R['read_exc']}: {R.get('read_msg')}", {"input": inp, "observed": obs})
+                continue
+            what = "grouped" if tag == "G" else "flat"
+            if R.get("nfields") != 1:
+                chk.fail("property", f"formula-terms:{what}-file-field-count",
+                         f"the {what} file, whose term variables have no bounds attribute of their own, gave {R.get('nfields')} fields "
+                         f"{R.get('field_ncvars')} instead of 1", {"input": inp, "observed": obs})
+            if R.get("has_bounds") is not None and R["has_bounds"] != r["has_bounds_orig"]:
+                chk.fail("property", f"formula-terms:{what}-bounds-lost",
+                         f"which formula terms (domain ancillaries) have bounds, read from the {what} file: {R['has_bounds']}, original: {r['has_bounds_orig']}",
+                         {"input": inp, "expected": r["has_bounds_orig"], "observed": obs})
+            if not (R.get("equals_orig") is True and R.get("orig_equals") is True):
+                chk.fail("property", f"formula-terms:{what}-readback-differs",
+                         f"the field read from the {what} file does not equal the original", {"input": inp, "observed": obs})
+            for a in R.get("alias") or []:
+                chk.fail("property", "array-aliased", f"{what}: {a}", {"input": inp, "observed": a})
+        if r.get("G_equals_F") is False:
+            chk.fail("property", "formula-terms:grouped-differs-from-flat",
+                     "the fields read from the grouped and the flat file differ", {"input": inp})
+    return len(cases)
 
 
 def run_fields(chk, model_ok, rng, quick, scratch, bump, distinct, stats):
